@@ -860,6 +860,10 @@ class Interp:
             return SBuiltin("bytes." + name, v)
         if isstrlike(v) and name in ("encode", "join"):
             return SBuiltin("str." + name, v)
+        if isinstance(v, list) and name in ("append", "extend"):
+            if any(v is g for g in self.ctx.global_objs.values()):
+                raise Unsupported("mutation of a module-level list")
+            return SBuiltin("list." + name, v)
         if isinstance(v, SOpaque):
             return SBuiltin(v.kind + "." + name, v)
         if isinstance(v, SBuiltin) and v.name == "int" and name == "from_bytes":
@@ -1090,6 +1094,10 @@ class Interp:
     def call_entropy(self, e, args):
         if len(args) != 1:
             raise Unsupported("entropy_f arity")
+        if getattr(e, "pattern", None) is not None:      # concrete cross-check: deterministic byte pattern
+            n = args[0]
+            e.count = getattr(e, "count", 0) + 1
+            return bytes((e.pattern * e.count + i * 7) % 256 for i in range(n))
         n = args[0]
         ctx = self.ctx
         if e.forbidden:
@@ -1152,8 +1160,8 @@ class Interp:
                 c2 = self.reg.get(rc.qual + "." + finfo.name)
                 if c2 is not None:
                     c = c2
-        if finfo.name == "__init__":
-            c = None      # constructors are always executed inline at call sites
+        if finfo.name == "__init__" or getattr(self.ctx.verifier, "concrete_mode", False):
+            c = None      # constructors are always executed inline at call sites; concrete cross-check inlines everything
         top = self.ctx.verifier.cur_contract
         if c is not None and top is not None and c.qual in getattr(top, "inline_callees", ()):
             return self.exec_function(finfo, args, kwargs, closure=closure)
@@ -1166,7 +1174,7 @@ class Interp:
         return self.exec_function(finfo, args, kwargs, closure=closure)
 
     def exec_function(self, finfo, args, kwargs, closure=None, contract=None, env=None):
-        if self.depth > 12:
+        if self.depth > (600 if getattr(self.ctx.verifier, "concrete_mode", False) else 12):
             raise Unsupported("inline depth")
         if env is None:
             env = self.bind_args(finfo, args, kwargs, finfo.module)
@@ -1345,6 +1353,18 @@ class Interp:
         if isinstance(it, SOpaque) and it.kind == "count" and spec is not None:
             self.ctx.verifier.loop_cut(self, st, frame, spec, kind="count", start=it.data)
             return
+        if isinstance(it, SOpaque) and it.kind == "count" and isinstance(it.data, int) and getattr(self.ctx.verifier, "concrete_mode", False):
+            k = it.data
+            while k < it.data + 100000:
+                self.assign(st.target, k, frame)
+                k += 1
+                try:
+                    self.exec_block(st.body, frame)
+                except _Break:
+                    return
+                except _Continue:
+                    continue
+            raise Unsupported("concrete count() loop did not end")
         raise Unsupported("for loop over %r (line %d)" % (it, st.lineno))
 
     def e_ListComp(self, node, frame, pure):
